@@ -18,6 +18,10 @@ R04.f  registries are total and name-consistent; machine choosers return an
 R04.h  no function of these modules modifies the object of a mutable default
        argument (directly, through a local alias, or with ``+=``): the result
        of a call must not depend on earlier calls.
+R04.i  no for-loop variable of these modules is read after its loop (a statement
+       left one indentation level too shallow sees only the last element).
+R04.j  no str-Enum value (FeatureType, ...Type) is tested by identity: plain strings
+       are accepted for these enums and are equal, not identical, to the member.
 """
 
 from __future__ import annotations
@@ -46,6 +50,8 @@ MANIFEST = {
         "non-empty filters, value-level optimality of the choice, equality of "
         "the direct and observer-based MWKR choices."
         " Also decided: no function of these modules accumulates into a mutable default argument."
+        " Also decided: no for-loop variable of these modules is read after its loop (statement left one indentation level too shallow)."
+        " Also decided: no str-Enum value is tested by identity (plain strings are accepted for these enums)."
     ),
     "note": "Criterion idioms recognised: min/max(xs, key=...), sorted(xs, key=...)[0], negated keys; accumulation tables built by a loop over a dispatcher query. Other shapes are ANALYSIS-ERROR.",
     "technique": "abstract interpretation (element-of domain) + criterion table matching + def-use order of clock reads + registry table check",
@@ -100,7 +106,7 @@ def _other_source(ret):
     for n in ast.walk(ret):
         if isinstance(n, ast.Call) and isinstance(n.func, ast.Attribute) and n.func.attr in (
             "raw_ready_operations", "unscheduled_operations", "uncompleted_operations", "scheduled_operations",
-            "completed_operations", "ongoing_operations",
+            "completed_operations", "ongoing_operations", "next_operation",
         ):
             return n.func.attr
     return None
@@ -300,7 +306,13 @@ def tie_breaker(ctx):
     for n in own_nodes(rule.node):
         if isinstance(n, ast.ListComp) and len(n.generators) == 1:
             g = n.generators[0]
-            if not (isinstance(g.iter, ast.Name) and g.iter.id == cand and g.ifs):
+            over_cand = isinstance(g.iter, ast.Name) and g.iter.id == cand
+            # candidates walked in step with their precomputed scores
+            over_zip = (
+                isinstance(g.iter, ast.Call) and isinstance(g.iter.func, ast.Name) and g.iter.func.id == "zip"
+                and any(isinstance(a, ast.Name) and a.id == cand for a in g.iter.args)
+            )
+            if not ((over_cand or over_zip) and g.ifs):
                 continue
             for cond in g.ifs:
                 if isinstance(cond, ast.Compare) and len(cond.ops) == 1:
@@ -692,6 +704,12 @@ def purity(ctx):
 
 def run(ctx):
     chk, repo = ctx.chk, ctx.repo
+    from .common import check_str_enum_identity
+
+    check_str_enum_identity(ctx, "R04.j", ("job_shop_lib.dispatching.rules",), "the rule")
+    from .common import check_loop_variable_leaks
+
+    check_loop_variable_leaks(ctx, "R04.i", ("job_shop_lib.dispatching.rules", "job_shop_lib._base_solver"), "the rule / solver")
     from .common import check_mutable_defaults
 
     check_mutable_defaults(ctx, "R04.h", ("job_shop_lib.dispatching.rules", "job_shop_lib._base_solver"), "the rule / solver")
@@ -726,6 +744,23 @@ def run(ctx):
                 chk.violation("R04.b", f, sel[3] if sel else None, "score_based_rule does not select the highest score")
             else:
                 chk.ok("R04.b", f.qualname, f.loc(), "argmax of scores[job_id]")
+            n += 1
+    # any other rule-shaped function of the rules modules (one Dispatcher
+    # parameter, returns an Operation): same provenance obligation
+    seen_rules = {f.qualname for f in rules.values()}
+    for f in repo.all_functions():
+        if (
+            isinstance(f.node, ast.Lambda) or f.cls is not None or f.parent is not None or f.qualname in seen_rules
+            or not f.module.name.startswith("job_shop_lib.dispatching.rules") or f.name.startswith("_")
+        ):
+            continue
+        a = f.node.args
+        if len(a.args) != 1 or a.vararg or a.kwarg or a.kwonlyargs:
+            continue
+        ann = ast.unparse(a.args[0].annotation) if a.args[0].annotation is not None else ""
+        ret = ast.unparse(f.node.returns) if f.node.returns is not None else ""
+        if ann.split(".")[-1] == "Dispatcher" and ret.split(".")[-1] == "Operation":
+            provenance(ctx, f, what="rule-shaped function outside the registry: element of available_operations()")
             n += 1
     chk.floor("R04.a", n, 6, "rules")
     tie_breaker(ctx)
